@@ -802,7 +802,8 @@ func partTermination() {
 		}(wi)
 	}
 	wg.Wait()
-	r.Sample(map[string]any{"termination_max_resident_kB": maxHWM, "programs": len(progs), "gas_limits": limits})
+	fmt.Printf("termination: max resident high-water mark %d kB (limit %d kB)\n", maxHWM, int64(hwmLimitKB))
+	r.Sample(map[string]any{"termination_resident_limit_kB": int64(hwmLimitKB), "programs": len(progs), "gas_limits": limits})
 	_ = maxMs
 }
 
